@@ -41,6 +41,43 @@ fn run_hist_mode(spec: &'static Spec, ops: &[Op], scribble: bool, keep_alive: bo
     Ok(rig)
 }
 
+/// retention monitor (native runs): after every call, no machine word of the driver object may be an
+/// address inside a buffer lent by an earlier call (all lent buffers are kept allocated, so their
+/// address ranges are disjoint and stay valid). Returns (lender op, current op, detail).
+fn scan_retention(spec: &'static Spec, ops: &[Op], mut rep: Option<&mut Report>) -> Result<Option<(String, String, String)>, String> {
+    let mut rig = match Rig::new(spec, |_| {}, None, false) {
+        Ok(r) => r,
+        Err((o, _)) => return Err(o.short()),
+    };
+    // buffer index -> op that lent it
+    let mut lender: Vec<usize> = Vec::new();
+    for (i, o) in ops.iter().enumerate() {
+        let out = rig.apply(o);
+        if !out.is_ok() {
+            return Err(format!("{} -> {}", o.short(), out.short()));
+        }
+        while lender.len() < rig.bufs.kept.len() {
+            lender.push(i);
+        }
+        let words = rig.panel.raw_words();
+        if let Some(rep) = rep.as_deref_mut() {
+            rep.count("driver_words_scanned", words.len() as u64);
+        }
+        for (bi, buf) in rig.bufs.kept.iter().enumerate() {
+            if buf.is_empty() {
+                continue;
+            }
+            let lo = buf.as_ptr() as usize;
+            let hi = lo + buf.len();
+            if let Some(w) = words.iter().find(|w| **w >= lo && **w < hi) {
+                let l = &ops[lender[bi]];
+                return Ok(Some((l.k.name().to_string(), o.k.name().to_string(), format!("after call #{} ({}) returned, the driver object holds the address {:#x}, which lies inside the {}-byte buffer lent to call #{} ({}) at offset {}", i + 1, o.short(), w, buf.len(), lender[bi] + 1, l.short(), w - lo))));
+            }
+        }
+    }
+    Ok(None)
+}
+
 /// Some(first differing transfer description) when the two traces differ
 fn eval(spec: &'static Spec, syms: &[Sym], h: &[usize], mut rep: Option<&mut Report>) -> Result<Option<(String, String)>, String> {
     let ops = flatten(syms, h);
@@ -196,6 +233,16 @@ pub fn run(ctx: &Ctx) -> Report {
         let syms = syms(spec);
         let ops = flatten(&syms, &c.h);
         rep.eval(spec.name);
+        if let Ok(Some((lender, _cur, detail))) = scan_retention(spec, &ops, Some(rep)) {
+            rep.fail(Failure {
+                panel: spec.name.into(),
+                entry: lender,
+                class: "pointer-retained".into(),
+                tags: vec![],
+                detail: format!("{} | seen in: {}", detail, ops_short(&ops)),
+                case: case_json(spec, &variant, &ops),
+            });
+        }
         match eval(spec, &syms, &c.h, Some(rep)) {
             Err(e) => {
                 rep.count("histories_with_failing_op", 1);
